@@ -150,7 +150,8 @@ TrueMetrics == {"euclidean", "manhattan", "chebyshev", "average_euclidean", "gow
 NotSymmetric == {"k_divergence", "kullback_leibler", "neyman", "pearson", "statistic"}
 SimplexOnly == {"bhattacharyya", "kullback_leibler", "k_divergence"}
 RealDomain == {"euclidean", "squared_euclidean", "manhattan", "chebyshev", "average_euclidean", "gower", "non_intersection",
-               "hamming", "lorentzian", "log_euclidean", "log_squared_euclidean", "gaussian"}
+               "hamming", "lorentzian", "log_euclidean", "log_squared_euclidean", "gaussian",
+               "hassanat", "canberra"}        \* both are defined (and metrics / bounded) on all reals: Hassanat's second branch exists for negatives
 Domain(nm) == IF nm \in RealDomain THEN "real" ELSE IF nm \in SimplexOnly THEN "simplex" ELSE "nonneg"
 Claims(nm) ==
   IF nm = "statistic" THEN {"finite", "zeroself"}
